@@ -154,8 +154,9 @@ def run_sync(ctx, V, ev):
                 tag="sync_mc", workers=6, coverage=thorough, timeout=900)
     if r.violated:
         ctx.notes.append("design: CodecSync %s violated" % r.violated)
-    if thorough and r.coverage_zero:
-        raise vlib.Inconclusive("CodecSync: actions never fired: %s" % r.coverage_zero)
+    never = [a for a in r.coverage_zero if a not in ("UpdateStore", "UpdatePush")]   # those two belong to SplitUpdate = TRUE
+    if thorough and never:
+        raise vlib.Inconclusive("CodecSync: actions never fired: %s" % never)
     ev["states"] += r.distinct
     ev["transitions"] += r.generated
     ev["design_runs"].append({"spec": "CodecSync", "distinct": r.distinct, "generated": r.generated,
@@ -232,7 +233,7 @@ def run_layout(ctx, V, ev):
         plan = [("n2", dict(maxn=2, small_from=9, cfgs=ALL_CFGS, perms=["id", "rev"]), 4),
                 ("n3", dict(maxn=3, small_from=9, cfgs=MAIN_CFGS, perms=["id", "rev", "rot"]), 2),
                 ("n4s", dict(maxn=4, small_from=1, cfgs=["k3f", "k3v", "k13"], perms=["id", "rev", "rot"],
-                             small=("{0,1}", "{0,1}", "{0,5,6}")), 2)]
+                             small=("{0,1}", "{0,1,2}", "{0,5,6}")), 2)]
     # vacuity of the model: every constructible flag byte and a 3-way merge are reachable
     rp = ctx.tlc(AREA, "CodecLayout", "p.cfg", files={"p.cfg": layout_cfg(3, 9, ["k3f"], ["id"], inv="ProbeMerge3")},
                  tag="lay_probe", workers=4, timeout=600, expect_violation=True)
@@ -263,7 +264,9 @@ def run_layout(ctx, V, ev):
         flags_seen = max(flags_seen, summ["flag_bytes_seen"])
         merged3 += summ["merged3"]
         lay.append({"run": tag, "frames": n, "cases": summ["cases"], "flag_bytes_seen": summ["flag_bytes_seen"],
-                    "merged2": summ["merged2"], "merged3": summ["merged3"]})
+                    "merged2": summ["merged2"], "merged3": summ["merged3"], "wide_payload_cases": summ.get("wide_payload_cases", 0)})
+        if summ.get("wide_payload_cases", 0) == 0:
+            raise vlib.Inconclusive("layout %s: no case with payloads above 64 KB was run" % tag)
         if tag == "n2" and smp:
             ev["samples"].append({"spec": "CodecLayout", "frame": json.loads(smp[0])})
         seen = set()
